@@ -295,7 +295,7 @@ def gen_job(rng, v2=False, want_model=True, nprog=20, nmask=6):
         spec["stats"] = [c for c in spec["cols"] if c != "c" and c not in spec["partition_on"]] if spec["stats"] is not False else False
     spec["page_size"] = rng.choice([None, 16, 24, 40, 64])
     spec["compression"] = rng.choice([None, None, "SNAPPY", "GZIP", "ZSTD"])
-    cand = [c for c in spec["cols"] if c != "rid" and c not in spec["partition_on"] and spec["cols"][c]["kind"] in ("int", "str", "ts")
+    cand = [c for c in spec["cols"] if c != "rid" and c not in spec["partition_on"] and spec["cols"][c]["kind"] == "str"
             and all(v is not None for v in spec["cols"][c]["values"])]
     spec["index"] = rng.choice(cand) if (cand and rng.random() < 0.2) else None
     spec["v2"] = v2
@@ -345,6 +345,12 @@ def run(ctx):
     ctx.coq_file(os.path.join(C.COQ, "props", "C13.v"))
     bad = C.hygiene()
     ctx.obligation("hygiene: no Admitted/Axiom/Parameter/... in coq/", not bad, "; ".join(bad))
+    if not quick:
+        # independent re-check of the compiled theorems and everything they depend on
+        rc, o = C.run(["coqchk", "-o", "-silent", "-Q", os.path.join(C.COQ, "theories"), "Pq", "C13.vo"],
+                      cwd=os.path.join(C.COQ, "props"), timeout=1200)
+        ctx.obligation("coqchk -o props/C13.vo: checked, Axioms: <none>", rc == 0 and "Axioms: <none>" in o, o[-1500:])
+        ctx.checker_cmds.append("coqchk -o -silent -Q coq/theories Pq coq/props/C13.vo")
     # the leaf decision of the first pass: regenerated text when the translator accepts api.py
     sys.path.insert(0, os.path.join(C.VERIF, "translators"))
     import py2coq
